@@ -75,6 +75,7 @@ class Mem(object):
             for a, b in pairs:
                 d.setdefault(a, b)
         self.cur = {}
+        self.fills = []         # big word fills as intervals (chip, base, nbytes, 4-byte word); bytes in cur override
 
     def initial(self, chip, a):
         o = self.over.get(tuple(chip))
@@ -84,6 +85,10 @@ class Mem(object):
 
     def get(self, chip, a):
         v = self.cur.get((tuple(chip), a))
+        if v is None:
+            for c, base, n, word in reversed(self.fills):
+                if c == tuple(chip) and base <= a < base + n:
+                    return bytearray(word)[(a - base) % 4]
         return self.initial(chip, a) if v is None else v
 
     def read(self, chip, a, n):
@@ -100,8 +105,10 @@ class Mem(object):
         return sim.pack_runs(self.cells())
 
 
-def mem_from_diff(case, diff):
+def mem_from_diff(case, diff, fills=()):
     m = Mem(case)
+    for x, y, base, n, word in fills or ():
+        m.fills.append(((x, y), base, n, bytes(bytearray.fromhex(word))))
     for x, y, a, b in sim.unpack_runs(diff):
         m.cur[((x, y), a)] = b
     return m
@@ -178,6 +185,51 @@ def target(case, op, mem, structs, chip=None):
     raise ValueError(k)
 
 
+def decodable(raw):
+    try:
+        raw.strip(b"\x00").decode("utf-8")
+        return True
+    except UnicodeDecodeError:
+        return False
+
+
+def is_big_fill(op):
+    return op[0] == "fill" and not (op[4] % 4 or op[2] % 4) and op[4] > sim.BIG_FILL
+
+
+def check_big_fill(mem, chip, address, word, size, observed):
+    """observed: the machine's big-fill intervals [x, y, base, nbytes, hex word] in the order they were executed.
+    Exactly [address, address + size) of `chip` must now hold copies of `word`, every other byte its old value;
+    decided byte by byte on the parts where that is in question (outside the target / not covered), with the
+    periodicity of a fill on the covered part."""
+    chip = tuple(chip)
+    obs = [((x, y), base, n, bytearray.fromhex(w)) for x, y, base, n, w in observed]
+
+    def now(c, a):
+        for oc, base, n, w in reversed(obs):
+            if oc == c and base <= a < base + n:
+                return w[(a - base) % 4]
+        return mem.get(c, a)
+    for oc, base, n, w in obs:                    # outside the target
+        pieces = [(base, base + n)] if oc != chip else [(base, min(base + n, address)), (max(base, address + size), base + n)]
+        for lo, hi in pieces:
+            for a in range(lo, hi):
+                if now(oc, a) != mem.get(oc, a):
+                    return ("write-outside-target", "fill of %d bytes at %#x on %r: byte %r %#x is %d, must be unchanged (%d); "
+                            "the machine executed fills %r" % (size, address, chip, oc, a, now(oc, a), mem.get(oc, a),
+                                                               [(b, k) for _, b, k, _ in obs]))
+    clip = lambda v: min(max(v, address), address + size)
+    edges = sorted(set([address, address + size] + [clip(b) for oc, b, n, w in obs if oc == chip]
+                       + [clip(b + n) for oc, b, n, w in obs if oc == chip]))
+    for lo, hi in zip(edges, edges[1:]):          # inside: each piece is either covered by the same intervals throughout or bare
+        covered = any(oc == chip and b <= lo and hi <= b + n for oc, b, n, _ in obs)
+        for a in (range(lo, min(hi, lo + 8)) if covered else range(lo, hi)):
+            if now(chip, a) != bytearray(word)[(a - address) % 4]:
+                return ("write-target-differs", "fill of %d bytes at %#x on %r: byte %#x is %d, must be %d"
+                        % (size, address, chip, a, now(chip, a), bytearray(word)[(a - address) % 4]))
+    return None
+
+
 def decode_value(raw, how):
     unit, count, kind, which = how
     if kind == "str":
@@ -232,6 +284,20 @@ def oracle(case, op, res, mem, structs, chip=None):
                             % (cmd, a3, a1, a2)))
         if cmd in (CMD_LINK_READ, CMD_LINK_WRITE) and (a1 % 4 or a2 % 4):
             bad.append(("link-cmd-misaligned", "link command %d for address %#x length %d" % (cmd, a1, a2)))
+    if is_big_fill(op) and tgt[0] == "write":
+        _, chip, address, data = tgt
+        word = bytes(data[:4])
+        if outcome[0] == "ok":
+            why = check_big_fill(mem, chip, address, word, len(data), res.get("fills", []))
+            if why:
+                bad.append(why)
+            if res["diff"] != mem.diff():
+                bad.append(("write-outside-target", "a fill of %d bytes at %#x also changed bytes elsewhere: %r"
+                            % (len(data), address, res["diff"][:4])))
+            mem.fills.append((tuple(chip), address, len(data), word))
+        else:
+            bad.append(("exception:" + str(outcome[1:2]), "fill %r: %r" % (op, outcome)))
+        return bad
     if tgt[0] == "error":
         if canon_exc(outcome) != ["fail", tgt[1]]:
             bad.append(("link-guard", "misaligned link access did not raise the documented ValueError: %r" % (outcome,)))
@@ -242,6 +308,12 @@ def oracle(case, op, res, mem, structs, chip=None):
         if outcome[0] == "exc" and outcome[1] == "TimeoutError" and case.get("plan") \
                 and res.get("max_tx", 0) >= case.get("n_tries", 5):
             pass            # one command was transmitted n_tries times in vain: the documented way to give up
+        elif outcome[0] == "exc" and outcome[1] == "FatalReturnCodeError" \
+                and any(rc not in RC_RETRY and rc != 0x80 for rc in res.get("refused", [])):
+            pass            # the machine refused a command with a fatal return code: the call must raise (C06)
+        elif outcome[0] == "exc" and outcome[1] == "UnicodeDecodeError" and tgt[0] == "read" and tgt[4] is not None \
+                and tgt[4][2] == "str" and not decodable(mem.read(tgt[1], tgt[2], tgt[3])):
+            return bad      # the stored bytes are not text: a text-returning read has nothing to return
         elif outcome[0] == "exc" and outcome[1] == "ValueError" and "memoryview assignment" in outcome[2] \
                 and buffer + 14 > pow2ceil(buffer + 8):
             bad.append(("recv-length-truncates-reply",
@@ -445,6 +517,11 @@ def probe_windows(case, structs):
             continue
         if t[0] == "read":
             ps.append((tuple(t[1]), max(0, t[2] - 2), 8))
+        elif t[0] == "write" and is_big_fill(op):
+            a, n = t[2], len(t[3])
+            ps += [(tuple(t[1]), max(0, a - 9), 40), (tuple(t[1]), a + n - 31, 40 + 31),
+                   (tuple(t[1]), a + (n // 8) * 4 - 5, 24), (nbrs[0] if nbrs else far, a + n - 8, 16)]
+            mem.fills.append((tuple(t[1]), a, n, bytes(t[3][:4])))
         elif t[0] == "write":
             a, n = t[2], min(len(t[3]), 1200)
             lo = max(0, a - 9)
@@ -543,6 +620,14 @@ def sv_value(rng, unit, count):
     return vals if count > 1 else vals[0]
 
 
+# application names whose utf-8 encoding fits the 16-byte field (they must round-trip) ...
+FITTING_NAMES = ["", "a", "my_app", "0123456789abcdef", "caf\u00e9", "na\u00efve \u20ac", "\u65e5\u672c\u8a9e\u30a2\u30d7",
+                 "\u00df" * 8, "aaaaaaaaaaaaa\u20ac", "\u00e9" * 7 + "zz", "\U0001f600app", "x\u00e9\u20ac\U0001f600-9"]
+# ... and names that do not fit: struct's '16s' cuts them (the last one inside a character, after which the text-returning
+# read of the field raises UnicodeDecodeError on the unchanged code; out of the property's domain, outcome class only)
+OVERSIZE_NAMES = ["0123456789abcdefXYZ", "\u00e9" * 9, "aaaaaaaaaaaaaaa\u20ac", "aaaaaaaaaaaaaa\U0001f600", "\u65e5\u672c\u8a9e" * 3]
+
+
 def vcpu_over(rng, chip, structs, vb, cores):
     """initial memory: sv.vcpu_base = vb, a text application name in each listed core's block"""
     base, _, fields = structs["sv"]
@@ -571,7 +656,7 @@ def gen_fields(rng, structs, buffers, windows):
             vb = rng.choice([0xe5007000, 0xe5000000 + 4 * rng.randrange(1 << 16), 0x60000000 + 4 * rng.randrange(1 << 20)])
             c["over"] = vcpu_over(rng, c["chip"], structs, vb, [p])
             if kind == "str":
-                v = rng.choice(["", "a", "my_app", "0123456789abcdef", "0123456789abcdefXYZ"])
+                v = rng.choice(FITTING_NAMES)
             else:
                 v = rng.randrange(1 << (8 * unit))
                 if count > 1:
@@ -708,7 +793,7 @@ def gen_history(rng, structs, faulted=False):
         elif k == "write_vcpu":
             f = rng.choice(ints + ["app_name"])
             unit = structs["vcpu"][2][f][1]
-            ops.append([k, p, f, rng.choice(["", "app", "my_app-2"]) if f == "app_name" else rng.randrange(1 << (8 * unit))])
+            ops.append([k, p, f, rng.choice(FITTING_NAMES) if f == "app_name" else rng.randrange(1 << (8 * unit))])
         elif k == "read_struct":
             ops.append([k, rng.choice([0, 1]), rng.choice(sorted(structs["sv"][2]))])
         elif k == "write_struct":
@@ -783,6 +868,66 @@ def gen_discover(rng, structs):
     return c
 
 
+def gen_bigfill(rng, k):
+    """word fills of megabytes (the machine keeps them as intervals): sizes around and between whole MiB, so that a
+    library that cuts a large fill into several commands must get the last, shorter one right"""
+    MiB = 1 << 20
+    size = [2 * MiB + 4 * rng.randint(1, 5000), MiB + 4, 3 * MiB, MiB - 4, 2 * MiB + MiB // 2, MiB,
+            5 * MiB + 4 * rng.randint(1, 100), 65540, 4 * MiB - 4, MiB + MiB // 4][k % 10]
+    base = rand_base(rng, size + 2 * MiB)
+    return base_case(rng, rng.choice([16, 256]), rng.choice([1, 2, 8]),
+                     [["fill", rng.choice([0, 1, 17]), base, rng.randrange(1, TWO32), size]], tag="bigfill")
+
+
+def gen_names(rng, structs):
+    """the string-typed per-core field written with every fitting name (non-ASCII included) and read back, next to
+    the neighbouring fields"""
+    cases = []
+    for v in FITTING_NAMES:
+        for p in (0, rng.randint(1, 17)):
+            c = base_case(rng, rng.choice([4, 5, 16, 256]), rng.choice([1, 2, 8]), [], tag="names")
+            vb = 0x67800000 + 4 * rng.randrange(1 << 16)
+            c["over"] = vcpu_over(rng, c["chip"], structs, vb, [p])
+            c["ops"] = [["write_vcpu", p, "app_name", v], ["read_vcpu", p, "app_name"], ["read_vcpu", p, "time"],
+                        ["read_vcpu", p, "iobuf"]]
+            cases.append(c)
+    return cases
+
+
+def gen_unrecoverable(rng, structs):
+    """few tries and a hostile network (and fatal return codes): some block of a read is never answered.  The call
+    may raise (C06's time-out / fatal clause); if it returns, it must return the stored bytes"""
+    B = rng.choice([4, 5, 8, 16, 24])
+    T = rng.choice([2, 4])
+    n = rng.choice([rng.randint(1, 3 * B + 5), 2 * B, 3 * B])
+    a = rand_base(rng, n + 8) + rng.randrange(4)
+    p = rng.choice([0, 1, 17])
+    k = rng.choice(["read", "read", "conn_read", "read_struct", "write", "read_link"])
+    if k in ("read", "conn_read"):
+        op = [k, p, a, n]
+    elif k == "read_struct":
+        op = [k, p, rng.choice(["status_map", "p2v_map", "v2p_map", "unix_time", "vcpu_base"])]
+    elif k == "read_link":
+        op = [k, a - a % 4, n + (-n) % 4, rng.randrange(6)]
+    else:
+        op = [k, p, a, ["pat", rng.randrange(1000), n]]
+    c = base_case(rng, B, rng.choice([1, 2, 8]), [op], tag="unrecoverable", n_tries=rng.choice([1, 2, 2, 3]), timeout=T,
+                  preset=True)
+    plan = {}
+    for tx in range(6 * (4 + (3 * B + 5) // min(B, 4))):
+        r = rng.random()
+        if r < 0.3:
+            plan[str(tx)] = {"lost": True, "replies": []}
+        elif r < 0.55:
+            plan[str(tx)] = {"lost": False, "replies": []}
+        elif r < 0.65:
+            plan[str(tx)] = {"lost": False, "replies": [[1, rng.choice([0x81, 0x83, 0x84, 0x87, 0x88, 0x8b])]]}
+        else:
+            plan[str(tx)] = {"lost": False, "replies": [[rng.choice([1, 1, 2, T + 1]), None]]}
+    c["plan"] = plan
+    return c
+
+
 def gen_malformed(rng):
     B = rng.choice([4, 16, 256])
     pool = [
@@ -797,7 +942,14 @@ def gen_malformed(rng):
         [["write_link", 0x1000, 0, ["pat", 1, 7]]], [["read_link", 0x1000, -4, 0]], [["read_link", TWO32, 8, 1]],
     ]
     c = base_case(rng, B, rng.choice([1, 2, 8]), rng.choice(pool), tag="malformed", kind="malformed", preset=True)
+    if rng.random() < 0.3:              # names that do not fit the field
+        p = rng.randint(0, 17)
+        c["ops"] = [["write_vcpu", p, "app_name", rng.choice(OVERSIZE_NAMES)], ["read_vcpu", p, "app_name"]]
+        c["over"] = vcpu_over(rng, c["chip"], PARSED_STRUCTS[0], 0x67800000 + 4 * rng.randrange(1 << 16), [p])
     return c
+
+
+PARSED_STRUCTS = [None]
 
 
 def gen_nonterm(rng):
@@ -834,10 +986,16 @@ def run(chk, args):
         "by the network across calls",
         "0 <= address, address + length <= 2**32; the machine advertises a buffer of at least 1 byte (4 for the link "
         "functions: with less they do not terminate, shown by the `nonterm` cases)",
-        "the window size is set through the controller's private attribute (it has no public setter)"]
+        "the window size is set through the controller's private attribute (it has no public setter)",
+        "string field values whose utf-8 encoding fits the field (an oversize name is cut by struct's '16s'; cut inside a "
+        "multi-byte character, e.g. 'a'*15 + EURO SIGN, the unchanged read_vcpu_struct_field then raises "
+        "UnicodeDecodeError on the 16 stored bytes: observed, judged outside the property -- outcome class only)",
+        "a call may raise TimeoutError when one datagram was transmitted n_tries times in vain and "
+        "FatalReturnCodeError when the machine answered a fatal return code (C06); only a normal return is judged"]
     chk.regenerate(UNITS)
     chk.prove()
     structs = parse_structs(os.path.join(lib.REPO, "rig", "boot", "sark.struct"))
+    PARSED_STRUCTS[0] = structs
     rng = chk.rng
     quick = chk.tier == "quick"
     windows = [1, 2, 8]
@@ -859,7 +1017,10 @@ def run(chk, args):
         singles += [gen_history(rng, structs, faulted=(i % 4 == 3)) for i in range(240 if quick else 3000)]
         singles += [gen_bigbuffer(rng, B) for B in [999, 1000, 1024, 2000] for _ in range(4 if quick else 40)]
         singles += [gen_discover(rng, structs) for _ in range(160 if quick else 2000)]
-        singles += [gen_malformed(rng) for _ in range(40 if quick else 200)]
+        singles += [gen_bigfill(rng, k) for k in range(10 if quick else 60)]
+        singles += gen_names(rng, structs)
+        singles += [gen_unrecoverable(rng, structs) for _ in range(200 if quick else 3000)]
+        singles += [gen_malformed(rng) for _ in range(60 if quick else 300)]
         singles += [gen_nonterm(rng) for _ in range(3)]
         if not quick:
             for _ in range(12000):                     # sampled: alignment x length 0..2000 x buffer 4..300
@@ -970,7 +1131,7 @@ def run(chk, args):
                     res = results[id(c)]
                     n_trace += 1
                     bad, pv = v
-                    final = mem_from_diff(c, res[-1]["diff"])
+                    final = mem_from_diff(c, res[-1]["diff"], res[-1].get("fills"))
                     if bad != 0:
                         chk.disagree("trace validator: %d replies of the Python simulator differ from Model/Machine.v exec" % bad,
                                      dict(case=c))
@@ -1014,7 +1175,11 @@ def run(chk, args):
         "buffer sizes 999, 1000, 1024, 2000 learnt through the controller's own sver query with transfers of >= 2 full "
         "chunks; a simulated three-board machine (one fake socket per connection) on which the controller first runs "
         "discover_connections() and then reads / writes chips of every board under fault plans (a TimeoutError is accepted "
-        "only when one datagram really was transmitted n_tries times). "
+        "only when one datagram really was transmitted n_tries times); word fills of 64 KiB .. 5 MiB (sizes around and between "
+        "whole MiB; the simulator and the oracle keep them as intervals); every application name whose utf-8 encoding "
+        "fits the 16-byte field, non-ASCII included, written and read back (names that do not fit are in the malformed "
+        "stream); unrecoverable schedules (1-3 tries, 55% of the transmissions lost, 10% refused with a fatal return "
+        "code): the call may raise, a normal return must still be exact. "
         "Non-trivial = valid case with >= 2 commands, or a non-word command, or a fill/link command, or a faulted run; "
         "distinct by hash of (buffer, window, initial memory, chip, calls, fault plan)")
 
@@ -1031,6 +1196,11 @@ def compare(case, res, v, ps, structs):
         io = canon_exc(r["outcome"])
         if io == ["other"] and r["outcome"][1] == "TimeoutError" and case.get("plan"):
             return None          # gave up after n_tries: outside the model (C06's domain)
+        if r["outcome"][0] == "exc" and r["outcome"][1] == "FatalReturnCodeError" and r.get("refused"):
+            return None          # the fault plan made the machine refuse a command: outside the model
+        if r["outcome"][0] == "exc" and r["outcome"][1] == "UnicodeDecodeError" and code == 0 \
+                and case["ops"][i][0] == "read_vcpu" and model_bytes_value(case["ops"][i], out, structs) == ["undecodable"]:
+            return None          # the model returns the bytes; decoding them as text is CPython's
         if mo != io:
             return "call %d: model outcome %r, implementation %r" % (i, mo, r["outcome"])
         if code != 0:
@@ -1056,7 +1226,7 @@ def compare(case, res, v, ps, structs):
             if model_bytes_value(op, out, structs) != val:
                 return "call %d: returned value %r, model bytes decode to %r" % (i, val, model_bytes_value(op, out, structs))
         # memory afterwards
-        if probe_value(mem_from_diff(case, r["diff"]), ps) != pv:
+        if probe_value(mem_from_diff(case, r["diff"], r.get("fills")), ps) != pv:
             return "call %d: memory afterwards differs from the model's" % i
     if len(v) > len(res) and isinstance(res[-1], dict) and res[-1]["outcome"][0] == "ok":
         return "model made %d calls, implementation %d" % (len(v), len(res))
